@@ -733,6 +733,20 @@ fn insert_anchor(block: &mut Block, id: &str, place: &str, anchor: &str, nth: us
             block.stmts.insert(at, marker);
             Ok(())
         }
+        "ret" => {
+            // the tail expression is bound first: `{ ..; let __vp_ret = E; <proof>; __vp_ret }`
+            let n = block.stmts.len();
+            if n > 0 {
+                if let Stmt::Expr(e, None) = &block.stmts[n - 1] {
+                    let e = e.clone();
+                    block.stmts[n - 1] = syn::parse_quote!(let __vp_ret = #e;);
+                    block.stmts.push(marker);
+                    block.stmts.push(Stmt::Expr(syn::parse_quote!(__vp_ret), None));
+                    return Ok(());
+                }
+            }
+            Err(format!("lost anchor: function has no tail expression (proof {})", id))
+        }
         "end" => {
             let n = block.stmts.len();
             if n > 0 {
@@ -957,6 +971,39 @@ impl<'c, 'a> Structural<'c, 'a> {
         // R6: for (i, p) in S.iter().enumerate()
         let it = &*f.expr;
         let label = &f.label;
+        // R6c: `for p in &S` / `for p in S.iter()` / `for p in S` (S a slice or Vec place) -> index loop
+        {
+            let src: Option<Expr> = match it {
+                Expr::Reference(r) if r.mutability.is_none() => Some((*r.expr).clone()),
+                Expr::MethodCall(mc) if mc.method == "iter" && mc.args.is_empty() => Some((*mc.receiver).clone()),
+                Expr::Path(_) | Expr::Field(_) if self.cx.opts["for_by_index"].as_bool().unwrap_or(false) => Some(it.clone()),
+                _ => None,
+            };
+            if let Some(s) = src {
+                if matches!(s, Expr::Path(_) | Expr::Field(_)) {
+                    let mut body = f.body.clone();
+                    let marker = if !body.stmts.is_empty() && norm(body.stmts[0].to_token_stream()).starts_with("__vp_loop") {
+                        Some(body.stmts.remove(0))
+                    } else {
+                        None
+                    };
+                    let bind: Stmt = match &*f.pat {
+                        syn::Pat::Reference(r) => {
+                            let p = &r.pat;
+                            syn::parse_quote!(let #p = #s[__vp_k];)
+                        }
+                        p => syn::parse_quote!(let #p = &#s[__vp_k];),
+                    };
+                    if norm(body.to_token_stream()).contains("continue") {
+                        self.cx.errors.push("unsupported-construct: `continue` inside a for loop over a slice".into());
+                        return None;
+                    }
+                    self.cx.logr("R6", f.for_token.span, "for x in &S / S.iter() -> for k in 0..S.len()".into());
+                    let stmts = &body.stmts;
+                    return Some(syn::parse_quote!(#label for __vp_k in 0..#s.len() { #marker #bind #(#stmts)* }));
+                }
+            }
+        }
         // R6b: for p in S.iter().rev()  ->  descending index loop
         if let Expr::MethodCall(mc) = it {
             if mc.method == "rev" && mc.args.is_empty() {
